@@ -51,7 +51,7 @@ VARIANTS = [
          ("C05.13", "LetFiller.resolve_constant:constant-of-constant"), ("C05",)),
     # ---- C13
     fire("w3-body-statements-not-relinked",
-         [(CB, "                obj = rebuild_statement_in_context(obj, context, gate_context)\n", "")],
+         [(CB, "                obj = rebuild_statement_in_context(\n                    obj, context, gate_context, self.is_anonymous_gate_allowed()\n                )\n", "")],
          ("C13.8", "Builder.build_circuit:body-statement"), ("C13",)),
     fire("w3-relinker-skips-native-gates",
          [(CB, "            if gate_def is gate.gate_def:\n                return False, gate\n            # A statement built on its own (e.g. by CircuitBuilder.loop or\n            # CircuitBuilder.macro) has a made-up definition; link it to\n            # the definition the circuit knows by this name.\n            args = gate.parameters.values()\n            new_gate = gate_def(*args)\n            return True, new_gate\n",
